@@ -637,7 +637,7 @@ def stack_slices(fn):
 
 def apply_consts(tier):
     fan, stages, batch = (2, 3, 2) if tier == "quick" else (3, 3, 3)
-    return {"C": 2, "MaxFan": fan, "MaxStages": stages, "MaxBatch": batch, "Mut": 0}
+    return {"C": 2, "MaxFan": fan, "MaxStages": stages, "MaxBatch": batch, "CotStages": 2 if tier == "quick" else 3, "Muts": "{0}"}
 
 
 def apply_generate(tier, workers):
@@ -650,11 +650,14 @@ def apply_generate(tier, workers):
 
 
 def apply_mutant(tier):
-    """negative control of the invariant: the mutated algorithm must violate Routing"""
-    m = lib.run_tlc("PipelineApplyGen", lib.cfg(constants=dict(apply_consts(tier), MaxStages=2, MaxBatch=2, Mut=1), invariants=["Routing"]),
-                    lib.workdir(PID, "apply") / "mut", timeout=600, workers=2)
-    if m.invariant_violated != "Routing":
-        raise lib.MachineryError("mutated application model did not violate Routing (vacuous invariant)")
+    """negative controls of the invariant: each mutated algorithm (1: slices that do not advance, 2: the classical Jacobian of
+    tape 0 for every tape) must produce results that differ from the reference terms"""
+    m = lib.run_tlc("PipelineApplyGen", lib.cfg(constants=dict(apply_consts(tier), MaxStages=2, MaxBatch=2, CotStages=2, Muts="{1,2}"),
+                                                constraints=["Emit"]), lib.workdir(PID, "apply") / "mut", timeout=600, workers=2)
+    lib.require_ok(m, "PipelineApplyGen (mutated models)")
+    m.caught = {k: sum(1 for t in m.tuples if t[0] == "MUT" and t[1] == k and t[2] == "caught") for k in (1, 2)}
+    if not all(m.caught.values()):
+        raise lib.MachineryError(f"a mutated application model still satisfies Routing (vacuous invariant): {m.caught}")
     return m
 
 
@@ -662,8 +665,8 @@ def run_apply(tier, seed, cov, viol, g, m):
     consts = apply_consts(tier)
     C, maxfan, stages, batch = consts["C"], consts["MaxFan"], consts["MaxStages"], consts["MaxBatch"]
     base = maxfan + 1
-    neg = 1
-    cases = sorted(g.json_lines, key=lambda c: (len(c["pipe"]), c["pipe"], len(c["batch"]), c["batch"]))
+    neg = 2
+    cases = sorted(g.json_lines, key=lambda c: (len(c["pipe"]), c["pipe"], len(c["batch"]), c["batch"], c["cot"]))
     if len(cases) < 500:
         raise lib.MachineryError("application generator produced too few cases")
     bad = {}
@@ -778,18 +781,20 @@ def run_apply(tier, seed, cov, viol, g, m):
                 pipe3 = place_configured(pairc, ts[2:], how, keyword)
                 ob3, fn3 = pipe3(tapes)
                 got3 = list(fn3(execute_tags(ob3)))
-                kids, f_ = pairc(tapes[0], sel=1) if keyword else pairc(tapes[0], 1)
-                bh3 = f_(tuple(by_hand_tape(k, ts[2:]) for k in kids))
+                bh3 = []
+                for tp in tapes:
+                    kids, f_ = pairc(tp, sel=1) if keyword else pairc(tp, 1)
+                    bh3.append(f_(tuple(by_hand_tape(k, ts[2:]) for k in kids)))
             except Exception as e:  # noqa: BLE001
                 differs(f"apply:configured-expand-pair:{tag}:exception", case, f"{type(e).__name__}: {e}", how)
                 continue
             if got3 != case["exp"]:
                 differs(f"apply:configured-expand-pair:{tag}:pipeline-differs-from-reference-terms", case, got3,
                         f"pipeline built by {how} from T({'sel=1' if keyword else '1'}) with expand_transform")
-            if bh3 != case["exp"][0]:
+            if bh3 != case["exp"]:
                 differs(f"apply:configured-expand-pair:{tag}:by-hand-differs-from-reference-terms", case, bh3, "T(tape, configuration)")
     # REPLAY comparator negative control: swap two leaves of an expected term
-    cneg = copy.deepcopy(next(c for c in cases if len(c["leaves"]) >= 2 and len(c["pipe"]) >= 1))
+    cneg = copy.deepcopy(next(c for c in cases if len(c["leaves"]) >= 2 and len(c["pipe"]) >= 1 and not c["cot"]))
     flat_terms = []
 
     def walk(t):
@@ -805,16 +810,24 @@ def run_apply(tier, seed, cov, viol, g, m):
     if list(fn(execute_tags(ob))) == cneg["exp"]:
         raise lib.MachineryError("application comparator accepted a corrupted expectation")
     neg += 1
+    # ... and exchange the owners of two classical Jacobians of an expected cotransform term
+    cneg = copy.deepcopy(next(c for c in cases if c["cot"] and sum(1 for t in _walk_terms(c["exp"]) if t["k"] == 99) >= 2))
+    jn = [t for t in _walk_terms(cneg["exp"]) if t["k"] == 99]
+    jn[0]["t"], jn[1]["t"] = jn[1]["t"], jn[0]["t"]
+    if run_cot_case(cneg, C, base)[0] == cneg["exp"]:
+        raise lib.MachineryError("cotransform comparator accepted exchanged classical Jacobians")
+    neg += 1
     for key, lst in sorted(bad.items()):
         viol.append(Violation(key=key, detail=f"{len(lst)} case(s); first: fan-out tables {lst[0]['case']['pipe']} batch colours "
                                               f"{lst[0]['case']['batch']} via {lst[0]['how']}: got {json.dumps(lst[0]['got'])[:600]} expected "
                                               f"{json.dumps(lst[0]['expected'])[:600]}", replay=lst[0]))
+    counts["configured_expand_pair_placements"] = placed
     cov["apply_counts"] = counts
     cov["apply_model"] = {"module": "PipelineApply", "C": C, "MaxFan": maxfan, "MaxStages": stages, "MaxBatch": batch, "states": g.distinct,
-                          "invariants": ["Routing", "SlicesCover", "Shape"], "mutant_violates": m.invariant_violated,
+                          "invariants": ["Routing", "SlicesCover", "Shape"], "CotStages": consts["CotStages"], "mutants_caught": m.caught,
                           "wall_s": round(g.wall_s, 1)}
     return {"states": g.distinct + m.distinct, "trans": g.generated + m.generated, "neg": neg, "cases": len(cases), "traces": traces,
-            "nontriv": nontriv, "samples": samples}
+            "nontriv": nontriv, "samples": samples[:1] + cot_samples}
 
 
 # ---------------------------------------------------------------------------- real transforms
@@ -926,6 +939,86 @@ def run_real(tier, seed, cov, viol, traces):
     return 1
 
 
+def run_cot_numeric(tier, cov, viol):
+    """Real hybrid gradient: QNode with trainable arguments -> synthetic fan-out into circuits whose gate parameter depends
+    DIFFERENTLY on the arguments (RX(t), RX(t**2), RX(sin t)) -> param_shift.  The pipeline's gradient is compared with the
+    transforms applied by hand (param_shift per circuit, chained with that circuit's own classical Jacobian) and with a
+    central finite difference of the un-differentiated pipeline."""
+    from pennylane import numpy as pnp
+    dev = qp.device("default.qubit", wires=1)
+    fs_all = [lambda t: t, lambda t: t ** 2, lambda t: qp.math.sin(t), lambda t: 0.5 * t + 0.25 * t ** 3]
+    ws_all = [1.5, -0.7, 2.25, 0.6]
+    inner1 = lambda x: x                      # noqa: E731
+    inner2 = lambda x, y: x * y + y           # noqa: E731
+
+    @qp.qnode(dev)
+    def circ1(x):
+        qp.RX(inner1(x), 0)
+        return qp.expval(qp.Z(0))
+
+    @qp.qnode(dev)
+    def circ2(x, y):
+        qp.RX(inner2(x, y), 0)
+        return qp.expval(qp.Z(0))
+    configs = [(circ1, inner1, (0.7,), [0, 1]), (circ1, inner1, (-1.3,), [0, 1, 2]), (circ2, inner2, (0.7, -0.4), [1, 0, 3]),
+               (circ1, inner1, (0.45,), [3, 2, 1, 0])]
+    if tier != "quick":
+        configs += [(circ2, inner2, (-0.9, 1.1), [0, 1, 2, 3]), (circ1, inner1, (2.1,), [1, 2]), (circ2, inner2, (0.2, 0.3), [2, 3])]
+    n_ok, bad, samples, neg = 0, {}, [], 0
+    for circ, inner, args, sel in configs:
+        fs, ws = [fs_all[i] for i in sel], [ws_all[i] for i in sel]
+
+        def variants(tape, fs=fs, ws=ws):
+            par = tape.operations[0].data[0]
+            kids = tuple(qp.tape.QuantumScript([qp.RX(f(par), 0), qp.RY(0.3, 0)], tape.measurements, trainable_params=[0]) for f in fs)
+
+            def post(res):
+                acc = _tree(lambda r: ws[0] * r, res[0])
+                for w, r in zip(ws[1:], res[1:]):
+                    acc = _tree(lambda a, b, w=w: a + w * b, acc, r)
+                return acc
+            return kids, post
+        VT = transform(variants)
+        targs = tuple(pnp.array(a, requires_grad=True) for a in args)
+        try:
+            got = np.atleast_1d(np.array([float(v) for v in np.atleast_1d(_flat(qp.gradients.param_shift(VT(circ))(*targs)))]))
+        except Exception as e:  # noqa: BLE001
+            bad.setdefault("cotransform:exception", []).append(f"{type(e).__name__}: {e} for args {args} variants {sel}")
+            continue
+        # by hand: quantum gradient of every circuit (param_shift on the tape), chained with ITS OWN classical Jacobian (autograd)
+        dE, jac = [], []
+        for f in fs:
+            theta = float(f(inner(*args)))
+            tp = qp.tape.QuantumScript([qp.RX(theta, 0), qp.RY(0.3, 0)], [qp.expval(qp.Z(0))], trainable_params=[0])
+            gt, gf = qp.gradients.param_shift(tp)
+            dE.append(float(np.asarray(gf(dev.execute(gt))).reshape(-1)[0]))
+            jac.append([float(qp.grad(lambda *a, f=f: f(inner(*a)), argnums=k)(*targs)) for k in range(len(args))])
+        hand = np.array([sum(w * d * j[k] for w, d, j in zip(ws, dE, jac)) for k in range(len(args))])
+        wrong = np.array([sum(w * d * jac[0][k] for w, d in zip(ws, dE)) for k in range(len(args))])   # everybody gets circuit 0's Jacobian
+        F, h = VT(circ), 1e-6
+        fd = np.array([(float(F(*[a + (h if i == k else 0) for i, a in enumerate(args)])) -
+                        float(F(*[a - (h if i == k else 0) for i, a in enumerate(args)]))) / (2 * h) for k in range(len(args))])
+        if np.allclose(hand, wrong, atol=1e-4):
+            raise lib.MachineryError("cotransform case cannot tell per-circuit Jacobians from a shared one")
+        neg += 1
+        if not np.allclose(hand, fd, atol=1e-5):
+            raise lib.MachineryError(f"by-hand gradient {hand} disagrees with finite differences {fd} (harness)")
+        if got.shape == hand.shape and np.allclose(got, hand, atol=1e-8) and np.allclose(got, fd, atol=1e-5):
+            n_ok += 1
+            if len(samples) < 1:
+                samples.append({"qnode_args": list(args), "circuits": [["RX(t)", "RX(t^2)", "RX(sin t)", "RX(t/2+t^3/4)"][i] for i in sel],
+                                "param_shift_through_pipeline": got.tolist(), "by_hand_per_circuit_jacobians": hand.tolist(),
+                                "finite_difference": fd.tolist(), "with_one_shared_jacobian_(rejected)": wrong.tolist()})
+        else:
+            key = "cotransform:gradient-uses-another-circuits-classical-jacobian" if got.shape == wrong.shape and np.allclose(got, wrong, atol=1e-6) \
+                else "cotransform:pipeline-gradient-differs-from-by-hand-and-finite-difference"
+            bad.setdefault(key, []).append(f"args {args}, circuits {sel}: pipeline {got.tolist()} by hand {hand.tolist()} finite difference {fd.tolist()}")
+    for key, lst in sorted(bad.items()):
+        viol.append(Violation(key=key, detail=f"{len(lst)} configuration(s); first: {lst[0]}", replay={"detail": lst[0]}))
+    cov["classical_cotransform_numeric"] = {"configurations": len(configs), "agree_with_by_hand_and_finite_difference": n_ok, "samples": samples}
+    return neg
+
+
 def _product(xs, n):
     if n == 0:
         return [()]
@@ -998,6 +1091,7 @@ def run(tier, seed):
     traces = a["traces"]
     n_syn = len(traces)
     neg_real = run_real(tier, seed, cov, viol, traces)
+    neg_real += run_cot_numeric(tier, cov, viol)
     n_traces = len(traces)
     actx = apply_trace_prepare(traces, rng)
     wall["replay_application"] = round(time.time() - t0, 1)
@@ -1014,6 +1108,10 @@ def run(tier, seed):
     rej, sl_drift, unobs = apply_judge(actx, r, n_syn, viol)
     e = edit_judge(ectx, er, cov, viol)
     cov["phase_wall_s"] = wall
+    ac = cov["apply_counts"]
+    if ac["classical_cotransform_with_several_tapes"] < 20 or ac["configured_expand_pair_positional"] < 100 or ac["configured_expand_pair_keyword"] < 30 \
+            or min(ac["configured_expand_pair_placements"].values()) < 20 or cov["classical_cotransform_numeric"]["configurations"] < 4:
+        raise lib.MachineryError(f"vacuous coverage of configured expand pairs / classical cotransforms: {ac}")
     if cov["apply_counts"]["fanout0"] < 50 or cov["apply_counts"]["uneven_nested"] < 50 or cov["apply_counts"]["empty_output"] < 5:
         raise lib.MachineryError(f"vacuous application coverage: {cov['apply_counts']}")
     for opname in ("append", "insert", "pop", "add", "addP", "radd", "mul", "slice", "addm", "delm", "remove", "iadd", "iaddP"):
@@ -1022,12 +1120,12 @@ def run(tier, seed):
     cov.update({
         "states": a["states"] + e["states"] + r.distinct + er.distinct, "transitions": a["trans"] + e["trans"] + r.generated + er.generated,
         "traces_validated_against_impl": n_traces + e["traces"],
-        "evaluations": a["cases"] + cov["real_pipelines"]["pipelines"] + e["evals"],
+        "evaluations": a["cases"] + cov["real_pipelines"]["pipelines"] + cov["classical_cotransform_numeric"]["configurations"] + e["evals"],
         "distinct_nontrivial": a["nontriv"] + e["nontriv"],
         "rule": "application: distinct TLC cases (fan-out tables x batch) whose stages produce uneven nested batches (a stage with fan-out > 1 "
                 "followed by a stage that treats the children differently) including a dropped tape (fan-out 0); construction API: distinct "
                 "(observed pipeline with >= 2 transforms and >= 1 marker, accepted state-changing call) pairs validated by Trace_Pipeline",
-        "samples": a["samples"][:1] + e["samples"] + cov["real_pipelines"]["samples"][:1],
+        "samples": a["samples"] + e["samples"][:1] + cov["real_pipelines"]["samples"][:1] + cov["classical_cotransform_numeric"]["samples"],
         "exhaustive": True,
         "application_cases": a["cases"], "application_traces": n_traces, "application_slices_drift": sl_drift,
         "application_slices_unobservable": unobs,
@@ -1035,7 +1133,8 @@ def run(tier, seed):
     return CheckResult(coverage=cov, violations=viol, assumptions=[
         "synthetic post-processing is the free term constructor (injective), so any mis-routing of a result changes the term",
         "tapes are told apart by a gate parameter; fan-out depends on the tape only through its colour",
-        "classical cotransforms / cotransform_cache (gradient-internal) are not exercised",
+        "classical cotransforms: autograd interface only (symbolic Jacobian = tape identity through a real QNode + CotransformCache; "
+        "numeric param_shift vs by hand vs finite differences); jax argnums path not exercised",
         "markers: judged by order preservation relative to surviving transforms, bounds 0..Len and survival (only slicing / "
         "remove_marker may delete); insert with a negative index is outside the documented use and only counted",
         "real-transform pipelines are compared numerically (1e-8) with the by-hand application on default.qubit"])
